@@ -56,13 +56,97 @@ fn to_primitive_number(value: &Value) -> Option<f64> {
     }
 }
 
-pub fn str_to_number<S: AsRef<str>>(string: S) -> Option<f64> {
-    let s = string.as_ref();
-    if s == "" {
-        Some(0.0)
-    } else {
-        f64::from_str(s).ok()
+/// Whitespace and line terminators as JavaScript strips them (StrWhiteSpaceChar)
+fn is_js_whitespace(c: char) -> bool {
+    match c {
+        '\u{9}' | '\u{A}' | '\u{B}' | '\u{C}' | '\u{D}' | ' ' | '\u{A0}' | '\u{1680}'
+        | '\u{2000}'..='\u{200A}' | '\u{2028}' | '\u{2029}' | '\u{202F}' | '\u{205F}'
+        | '\u{3000}' | '\u{FEFF}' => true,
+        _ => false,
     }
+}
+
+/// Length of the longest prefix that is an unsigned JavaScript decimal literal:
+/// digits with an optional fraction, or a fraction alone, optionally followed
+/// by a complete exponent. Zero when there is no such prefix.
+fn decimal_literal_len(s: &str) -> usize {
+    let b = s.as_bytes();
+    let digits = |mut i: usize| {
+        while i < b.len() && b[i].is_ascii_digit() {
+            i += 1;
+        }
+        i
+    };
+    let int_end = digits(0);
+    let mut end = int_end;
+    if end < b.len() && b[end] == b'.' {
+        let frac_end = digits(end + 1);
+        if int_end == 0 && frac_end == end + 1 {
+            return 0;
+        }
+        end = frac_end;
+    } else if int_end == 0 {
+        return 0;
+    }
+    if end < b.len() && (b[end] == b'e' || b[end] == b'E') {
+        let mut exp = end + 1;
+        if exp < b.len() && (b[exp] == b'+' || b[exp] == b'-') {
+            exp += 1;
+        }
+        let exp_end = digits(exp);
+        if exp_end > exp {
+            end = exp_end;
+        }
+    }
+    end
+}
+
+/// Convert a string to a number the way JavaScript's `Number(string)` does,
+/// returning None where that would return NaN.
+pub fn str_to_number<S: AsRef<str>>(string: S) -> Option<f64> {
+    let s = string.as_ref().trim_matches(is_js_whitespace);
+    if s == "" {
+        return Some(0.0);
+    }
+    // Unsigned hexadecimal, octal and binary integer literals
+    if s.len() > 2 && s.is_char_boundary(2) {
+        let radix = match &s[..2] {
+            "0x" | "0X" => Some(16),
+            "0o" | "0O" => Some(8),
+            "0b" | "0B" => Some(2),
+            _ => None,
+        };
+        if let Some(radix) = radix {
+            // Accumulate exactly for as long as the value fits, so that the
+            // conversion to a double is rounded only once.
+            let digits = s[2..]
+                .chars()
+                .map(|c| c.to_digit(radix))
+                .collect::<Option<Vec<u32>>>()?;
+            let exact = digits.iter().fold(Some(0u128), |acc, digit| {
+                acc?.checked_mul(u128::from(radix))?
+                    .checked_add(u128::from(*digit))
+            });
+            return Some(match exact {
+                Some(total) => total as f64,
+                None => digits.iter().fold(0.0, |total, digit| {
+                    total * f64::from(radix) + f64::from(*digit)
+                }),
+            });
+        }
+    }
+    let (sign, unsigned) = match s.as_bytes()[0] {
+        b'+' => (1.0, &s[1..]),
+        b'-' => (-1.0, &s[1..]),
+        _ => (1.0, s),
+    };
+    if unsigned == "Infinity" {
+        return Some(sign * f64::INFINITY);
+    }
+    if unsigned == "" || decimal_literal_len(unsigned) != unsigned.len() {
+        return None;
+    }
+    f64::from_str(unsigned).ok().map(|num| sign * num)
 }
 
 enum Primitive {
